@@ -364,6 +364,23 @@ func (sc *specCtx) ev(e ast.Expr) (*val, error) {
 		}
 		return sc.index(b, idx)
 	case *ast.SliceExpr:
+		// slicing an array FIELD reached through a pointer (hdr.Eh[8:]) addresses memory, it does not load the array
+		if se, ok := x.X.(*ast.SelectorExpr); ok {
+			if base, err := sc.ev(se.X); err == nil && base.k == kPtr && base.ty != nil {
+				if pt, ok := base.ty.Underlying().(*types.Pointer); ok {
+					if st, ok := pt.Elem().Underlying().(*types.Struct); ok {
+						for i := 0; i < st.NumFields(); i++ {
+							if at, ok := st.Field(i).Type().Underlying().(*types.Array); ok && st.Field(i).Name() == se.Sel.Name {
+								n := bv(64, uint64(at.Len()))
+								arr := &val{k: kSlice, constLen: int(at.Len()), ty: types.NewSlice(at.Elem()),
+									t: []string{base.t[0], addOff(base.t[1], fieldOff(st, i)), n, n}}
+								return sc.slice(arr, x)
+							}
+						}
+					}
+				}
+			}
+		}
 		b, err := sc.ev(x.X)
 		if err != nil {
 			return nil, err
